@@ -577,20 +577,21 @@ fn sweep(tier: Tier, part: usize, parts: usize) -> impl Iterator<Item = Case> {
             v.push(Case::Raw { entry: 3, data: d });
         }
     }
+    // every byte string up to length 2 (3 thorough) at each entry: generated lazily (tens of millions of cases must never
+    // be materialised, let alone once per worker)
     let maxlen = if tier == Tier::Thorough { 3 } else { 2 };
     let nstr: usize = (0..=maxlen).map(|l| 256usize.pow(l as u32)).sum();
-    for e in 0..4u8 {
-        for i in 0..nstr {
-            let mut k = i;
-            let mut len = 0;
-            while k >= 256usize.pow(len as u32) {
-                k -= 256usize.pow(len as u32);
-                len += 1;
-            }
-            v.push(Case::Raw { entry: e, data: (0..len).map(|j| ((k >> (8 * j)) & 0xFF) as u8).collect() });
+    let strings = (part..4 * nstr).step_by(parts).map(move |idx| {
+        let e = (idx / nstr) as u8;
+        let mut k = idx % nstr;
+        let mut len = 0;
+        while k >= 256usize.pow(len as u32) {
+            k -= 256usize.pow(len as u32);
+            len += 1;
         }
-    }
-    v.into_iter().enumerate().filter(move |(i, _)| i % parts == part).map(|(_, c)| c)
+        Case::Raw { entry: e, data: (0..len).map(|j| ((k >> (8 * j)) & 0xFF) as u8).collect() }
+    });
+    v.into_iter().enumerate().filter(move |(i, _)| i % parts == part).map(|(_, c)| c).chain(strings)
 }
 
 pub fn check(rep: &Report) {
